@@ -127,8 +127,11 @@ static const uint8_t *ptrnz(const Bytes &b)
 }
 
 // --- library calls, dispatched by kind -------------------------------------
-static void lib_init(AnyState *st, const Params &p, const Material &m, bool re)
+static void lib_init(AnyState *st, const Params &p, const Material &m, bool re, int amode = 0)
 {
+    // amode (incremental AEAD only): 1 = the nonce argument is the object's own application-accessible nonce field,
+    // 2 = NULL nonce (documented: all-zero nonce), 3 = NULL key (documented: all-zero key)
+    const uint8_t *kp = amode == 3 ? nullptr : m.key.data();
     switch (p.kind) {
     case HASH: re ? ascon_hash_reinit(&st->hash) : ascon_hash_init(&st->hash); break;
     case HASHA: re ? ascon_hasha_reinit(&st->hasha) : ascon_hasha_init(&st->hasha); break;
@@ -169,15 +172,24 @@ static void lib_init(AnyState *st, const Params &p, const Material &m, bool re)
     case HKDF: ascon_hkdf_extract(&st->hkdf, ptr(m.key), m.key.size(), ptr(m.custom), m.custom.size()); break;
     case HKDFA: ascon_hkdfa_extract(&st->hkdfa, ptr(m.key), m.key.size(), ptr(m.custom), m.custom.size()); break;
     case AE128:
-        re ? ascon128_aead_reinit(&st->a128, m.nonce.data(), m.key.data()) : ascon128_aead_init(&st->a128, m.nonce.data(), m.key.data());
+        {
+            const uint8_t *np = amode == 1 ? st->a128.nonce : amode == 2 ? nullptr : m.nonce.data();
+            re ? ascon128_aead_reinit(&st->a128, np, kp) : ascon128_aead_init(&st->a128, np, kp);
+        }
         ascon128_aead_start(&st->a128, ptr(m.ad), m.ad.size());
         break;
     case AE128A:
-        re ? ascon128a_aead_reinit(&st->a128a, m.nonce.data(), m.key.data()) : ascon128a_aead_init(&st->a128a, m.nonce.data(), m.key.data());
+        {
+            const uint8_t *np = amode == 1 ? st->a128a.nonce : amode == 2 ? nullptr : m.nonce.data();
+            re ? ascon128a_aead_reinit(&st->a128a, np, kp) : ascon128a_aead_init(&st->a128a, np, kp);
+        }
         ascon128a_aead_start(&st->a128a, ptr(m.ad), m.ad.size());
         break;
     case AE80:
-        re ? ascon80pq_aead_reinit(&st->a80, m.nonce.data(), m.key.data()) : ascon80pq_aead_init(&st->a80, m.nonce.data(), m.key.data());
+        {
+            const uint8_t *np = amode == 1 ? st->a80.nonce : amode == 2 ? nullptr : m.nonce.data();
+            re ? ascon80pq_aead_reinit(&st->a80, np, kp) : ascon80pq_aead_init(&st->a80, np, kp);
+        }
         ascon80pq_aead_start(&st->a80, ptr(m.ad), m.ad.size());
         break;
     }
@@ -565,7 +577,26 @@ struct StreamWorld : World {
         o.p = p;
         o.m = material(p, c.salt);
         o.stream = p.seed ^ 0x5151;
-        lib_init(st, p, o.m, use_re);
+        int amode = 0;
+        if (is_aead(p.kind)) {
+            unsigned sel = (unsigned)((p.seed >> 9) % 12);
+            if (sel == 1 && use_re) {
+                // re-key and keep the packet counter: the nonce argument is the object's own nonce field
+                amode = 1;
+                const uint8_t *cur = p.kind == AE128 ? st->a128.nonce : p.kind == AE128A ? st->a128a.nonce : st->a80.nonce;
+                o.m.nonce.assign(cur, cur + 16);
+                if (c.record) c.run->fault("obj.reinit_with_own_nonce");
+            } else if (sel == 2) {
+                amode = 2;
+                o.m.nonce.assign(16, 0);
+                if (c.record) c.run->fault("obj.null_nonce");
+            } else if (sel == 3) {
+                amode = 3;
+                o.m.key.assign(o.m.key.size(), 0);
+                if (c.record) c.run->fault("obj.null_key");
+            }
+        }
+        lib_init(st, p, o.m, use_re, amode);
         if (is_aead(p.kind)) {
             aead_oneshot(p.kind, o.ct, o.m);
             if (p.variant == 2) { // tampered copy
